@@ -429,6 +429,48 @@ func init() {
 			starts = append(starts, b.Succs[succ])
 		}
 		r.Floor("tests of Redo's greatest LSN against zero in NewSamehadaDB", len(starts), 1)
+		// both sides agree on what "no numbered record" looks like: the value Redo returns when it read nothing is the
+		// initial value of its running maximum (the constant leaves of the returned phi), and that value is 0
+		redoFn := w.SSA(redo)
+		var inits []int64
+		nonConst := false
+		for _, b := range redoFn.Blocks {
+			ret, ok := b.Instrs[len(b.Instrs)-1].(*ssa.Return)
+			if !ok || len(ret.Results) == 0 {
+				continue
+			}
+			seen := map[ssa.Value]bool{}
+			var leaves func(v ssa.Value)
+			leaves = func(v ssa.Value) {
+				v = stripConv(resolveCell(stripConv(v)))
+				if seen[v] {
+					return
+				}
+				seen[v] = true
+				if ph, ok := v.(*ssa.Phi); ok {
+					for _, e := range ph.Edges {
+						leaves(e)
+					}
+					return
+				}
+				if cv, ok := constOf(v); ok && cv.Kind() == constant.Int {
+					if iv, ok := constant.Int64Val(cv); ok {
+						inits = append(inits, iv)
+						return
+					}
+				}
+				// a value read from a record: not an initial value
+				nonConst = true
+			}
+			leaves(retOperand(ret, 0))
+		}
+		okInit := len(inits) > 0 && nonConst
+		for _, iv := range inits {
+			if iv != 0 {
+				okInit = false
+			}
+		}
+		r.Check(okInit, "Redo:empty-log-yields-the-tested-value", "Redo reports an empty log with the value NewSamehadaDB tests for (0)", fmt.Sprintf("the running maximum of Redo starts at %v, NewSamehadaDB restores the counter from the pages only when it is 0: after a launch that died right after truncating the log the counter restarts below the page LSNs", inits))
 		fromPages := func(in ssa.Instruction) bool {
 			c, ok := in.(ssa.CallInstruction)
 			if !ok || CalleeObj(c) != a.LMSetNextLSN {
@@ -1035,4 +1077,504 @@ func ordinalOfBlock(fn *ssa.Function, b *ssa.BasicBlock, pred func(*ssa.BasicBlo
 		}
 	}
 	return ""
+}
+
+func init() {
+	reg("C02-R7", "recovery reads every log record whole: each buffer log recovery hands to DiskManager.ReadLog is the recovery log buffer itself (the field, directly, through a parameter of a private helper, or a tail slice of it) — never a slice of it cut to a constant length: an UPDATE record carries two row images and is longer than a page, and a record that does not fit is not deserialised, so undo steps over it", func(w *World, r *Report) {
+		readLog := w.family(w.MethodObj("storage/disk", "DiskManager", "ReadLog"))
+		bufFld := w.Field("recovery/log_recovery", "LogRecovery", "logBuffer")
+		n := 0
+		var judge func(v ssa.Value, depth int) string
+		judge = func(v ssa.Value, depth int) string {
+			v = resolveCell(stripConv(v))
+			switch x := v.(type) {
+			case *ssa.UnOp:
+				if fa, ok := x.X.(*ssa.FieldAddr); ok {
+					if sst, ok := derefStruct(fa.X.Type()); ok && sst.Field(fa.Field) == bufFld {
+						return ""
+					}
+				}
+			case *ssa.Slice:
+				if x.High != nil {
+					if c, ok := x.High.(*ssa.Const); ok {
+						return "cut to the constant length " + c.Value.String() + " at " + w.Pos(x.Pos())
+					}
+					if c, ok := stripConv(x.High).(*ssa.Const); ok {
+						return "cut to the constant length " + c.Value.String() + " at " + w.Pos(x.Pos())
+					}
+					return "cut to a computed length at " + w.Pos(x.Pos()) + " (not decided)"
+				}
+				return judge(x.X, depth)
+			case *ssa.Phi:
+				for _, e := range x.Edges {
+					if s := judge(e, depth); s != "" {
+						return s
+					}
+				}
+				return ""
+			case *ssa.Parameter:
+				if depth >= 2 {
+					break
+				}
+				fn := x.Parent()
+				idx := -1
+				for i, p := range fn.Params {
+					if p == x {
+						idx = i
+					}
+				}
+				cs := w.Callers(fn)
+				if idx < 0 || len(cs) == 0 || token.IsExported(fn.Name()) {
+					break
+				}
+				for _, c := range cs {
+					if w.IsTestFunc(topFunc(c.Caller)) {
+						continue
+					}
+					args := c.Instr.Common().Args
+					if idx < len(args) {
+						if s := judge(args[idx], depth+1); s != "" {
+							return s
+						}
+					}
+				}
+				return ""
+			}
+			return "not the recovery log buffer: " + v.String()
+		}
+		for _, fn := range w.RepoFuncs {
+			if w.IsTestFunc(fn) || fn.Pkg == nil || fn.Pkg.Pkg.Path() != libMod+"/recovery/log_recovery" {
+				continue
+			}
+			EachCall(fn, func(c ssa.CallInstruction) {
+				if !readLog[CalleeObj(c)] {
+					return
+				}
+				n++
+				args := c.Common().Args
+				if !c.Common().IsInvoke() {
+					args = args[1:]
+				}
+				s := judge(args[0], 0)
+				r.Check(s == "", funcKey(fn)+":ReadLog-gets-the-whole-buffer"+ordinalAmong(fn, c.(ssa.Instruction), func(x ssa.CallInstruction) bool { return readLog[CalleeObj(x)] }), "the read buffer can hold the longest record", "ReadLog at "+w.InstrPos(c.(ssa.Instruction))+": buffer "+s)
+			})
+		}
+		r.Floor("ReadLog call sites in log recovery", n, 2)
+	})
+	prop("C02", "C02-R7")
+	prop("C01", "C02-R7")
+	prop("C20", "C02-R7")
+
+	reg("C02-R8", "before-images are taken before the page changes: in every TablePage method, bytes copied out of the page (copy with page bytes as source and something else as destination — the old row handed back or put on the log record) are copied on paths that have not yet written the page: after the tuple area was shifted the same offsets hold the neighbour's bytes, and undo of that record re-inserts them", func(w *World, r *Report) {
+		a := w.A()
+		pw := a.pageWriteSumm()
+		n := 0
+		for _, fn := range w.methodsOf("storage/access", "TablePage") {
+			var outs []ssa.Instruction
+			for _, b := range fn.Blocks {
+				for _, in := range b.Instrs {
+					c, ok := in.(*ssa.Call)
+					if !ok {
+						continue
+					}
+					if bi, ok := c.Call.Value.(*ssa.Builtin); ok && bi.Name() == "copy" && len(c.Call.Args) == 2 &&
+						DependsOn(c.Call.Args[1], a.isPageDataSource) && !DependsOn(c.Call.Args[0], a.isPageDataSource) {
+						outs = append(outs, in)
+					}
+				}
+			}
+			if len(outs) == 0 {
+				continue
+			}
+			n++
+			isOut := func(x ssa.Instruction) bool {
+				for _, o := range outs {
+					if o == x {
+						return true
+					}
+				}
+				return false
+			}
+			var writes []ssa.Instruction
+			for _, b := range fn.Blocks {
+				for _, in := range b.Instrs {
+					if c, ok := in.(ssa.CallInstruction); ok && CalleeObj(c) == a.PageSetLSN {
+						continue
+					}
+					if _, isDefer := in.(*ssa.Defer); isDefer {
+						continue
+					}
+					if pw.MaySite(in) && !isOut(in) {
+						writes = append(writes, in)
+					}
+				}
+			}
+			var wit *Witness
+			if len(writes) > 0 {
+				wit = (&PathQ{Fn: fn, Target: isOut}).FromAfter(writes)
+			}
+			detail := ""
+			if wit != nil {
+				detail = "bytes are copied out of the page at " + w.InstrPos(wit.Target) + " after the page was written at " + w.InstrPos(wit.Start)
+			}
+			r.Check(wit == nil, "TablePage."+fn.Name()+":copy-out-before-page-write", "row images are read before the page is modified", detail)
+		}
+		r.Floor("TablePage methods copying bytes out of the page", n, 3)
+	})
+	prop("C02", "C02-R8")
+	prop("C03", "C02-R8")
+	prop("C15", "C02-R8")
+}
+
+func ordinalAmong(fn *ssa.Function, in ssa.Instruction, pred func(ssa.CallInstruction) bool) string {
+	var poss []token.Pos
+	EachCall(fn, func(c ssa.CallInstruction) {
+		if pred(c) {
+			poss = append(poss, c.Pos())
+		}
+	})
+	sort.Slice(poss, func(i, j int) bool { return poss[i] < poss[j] })
+	for i, p := range poss {
+		if p == in.Pos() {
+			return "#" + itoa(i+1)
+		}
+	}
+	return ""
+}
+
+func init() {
+	reg("C11-R8", "a hash join's temporary page never writes over its own header: TmpTuplePage.Insert lowers the free-space pointer only on the side of a comparison that, as linear forms over (free-space pointer, tuple size), bounds the new pointer from below by the end of the last header field (offset of the free-space-pointer field + its width, both read from SetFreeSpacePointer): an entry that ends inside the header overwrites the pointer, its TmpTuple records a garbage offset and the row vanishes from the join", func(w *World, r *Report) {
+		pkg := "materialization"
+		ins := w.Fn(pkg, "TmpTuplePage", "Insert")
+		setFSP := w.MethodObj(pkg, "TmpTuplePage", "SetFreeSpacePointer")
+		getFSP := w.MethodObj(pkg, "TmpTuplePage", "GetFreeSpacePointer")
+		pure := map[*types.Func]bool{getFSP: true, w.MethodObj("storage/tuple", "Tuple", "Size"): true}
+		a := w.A()
+		// header end
+		sfn := w.SSA(setFSP)
+		headerEnd := int64(-1)
+		for _, b := range sfn.Blocks {
+			for _, in := range b.Instrs {
+				sl, ok := in.(*ssa.Slice)
+				if !ok || sl.Low == nil || !DependsOn(sl.X, a.isPageDataSource) {
+					continue
+				}
+				f := linForm(sl.Low, nil, 0)
+				if len(f.Sub(LinForm{}).T) == 0 {
+					wd := types.SizesFor("gc", "amd64").Sizeof(sfn.Params[1].Type())
+					if f.C+wd > headerEnd {
+						headerEnd = f.C + wd
+					}
+				}
+			}
+		}
+		r.Check(headerEnd > 0, "TmpTuplePage.SetFreeSpacePointer:field-position-found", "the free-space-pointer field has a constant position", "no constant-offset slice of the page bytes in SetFreeSpacePointer")
+		if headerEnd <= 0 {
+			return
+		}
+		sites := sitesCalling(ins, setFSP)
+		r.Floor("SetFreeSpacePointer sites in TmpTuplePage.Insert", len(sites), 1)
+		flip := map[token.Token]token.Token{token.LSS: token.GTR, token.LEQ: token.GEQ, token.GTR: token.LSS, token.GEQ: token.LEQ}
+		for _, s := range sites {
+			c := s.(*ssa.Call)
+			newFSP := linForm(c.Call.Args[1], pure, 0)
+			want := newFSP.Sub(LinForm{headerEnd, map[string]int64{}}) // must be >= 0
+			ok := false
+			why := "no dominating ordered comparison bounds the new free-space pointer"
+			for d, child := s.Block().Idom(), s.Block(); d != nil && !ok; child, d = d, d.Idom() {
+				i := blockIf(d)
+				if i == nil {
+					continue
+				}
+				base, neg := condBase(i.Cond)
+				bo, isBin := base.(*ssa.BinOp)
+				if !isBin || flip[bo.Op] == 0 {
+					continue
+				}
+				onTrue := d.Succs[0] == child || (d.Succs[0].Dominates(child) && len(d.Succs[0].Preds) == 1)
+				onFalse := d.Succs[1] == child || (d.Succs[1].Dominates(child) && len(d.Succs[1].Preds) == 1)
+				if onTrue == onFalse {
+					continue
+				}
+				holds := onTrue != neg // the comparison itself is true on the way to the write
+				x, y, op := linForm(bo.X, pure, 0), linForm(bo.Y, pure, 0), bo.Op
+				if !holds { // negate: !(x < y) == x >= y
+					op = map[token.Token]token.Token{token.LSS: token.GEQ, token.LEQ: token.GTR, token.GTR: token.LEQ, token.GEQ: token.LSS}[op]
+				}
+				// bring to  e >= m
+				var e LinForm
+				m := int64(0)
+				switch op {
+				case token.GEQ:
+					e = x.Sub(y)
+				case token.GTR:
+					e, m = x.Sub(y), 1
+				case token.LEQ:
+					e = y.Sub(x)
+				case token.LSS:
+					e, m = y.Sub(x), 1
+				}
+				slack := want.Sub(e.Sub(LinForm{m, map[string]int64{}}))
+				if len(slack.Sub(LinForm{}).T) != 0 {
+					why = fmt.Sprintf("the comparison at %s bounds [%s], the new pointer minus the header end is [%s]: not comparable", w.InstrPos(i), e, want)
+					continue
+				}
+				if slack.C >= 0 {
+					ok = true
+				} else {
+					why = fmt.Sprintf("the comparison at %s lets the new free-space pointer come down to %d bytes below the end of the header (%d)", w.InstrPos(i), -slack.C, headerEnd)
+				}
+			}
+			r.Check(ok, "TmpTuplePage.Insert:new-pointer-stays-behind-the-header"+ordinalIn(ins, s, setFSP), "the entry is stored behind the page header", why)
+		}
+	})
+	prop("C11", "C11-R8")
+}
+
+func init() {
+	reg("C11-R9", "a join that applies fewer cross conditions than the WHERE clause has is never a candidate on its own: findBestJoinInner is evaluated for concrete counts (E equalities among R collected cross conditions; every comparison among len(equals), len(relatedExp) and constants resolved): with E=1, R=2 (a key plus one more condition) and with E=0, R=1 the path that keeps the bare join beside its Selection-wrapped copy is unreachable; with E=2, R=2 it is reachable only if the key lists given to the join constructors are built from the whole equals slice (a join on the first key alone returns the rows the other equalities exclude)", func(w *World, r *Report) {
+		fn := w.Fn("planner/optimizer", "SelingerOptimizer", "findBestJoinInner")
+		elemIs := func(t types.Type, suffix string) bool {
+			sl, ok := t.Underlying().(*types.Slice)
+			return ok && strings.Contains(sl.Elem().String(), suffix)
+		}
+		isEquals := func(t types.Type) bool { return elemIs(t, "pair.Pair[") }
+		isRelated := func(t types.Type) bool { return elemIs(t, "parser.BinaryOpExpression") }
+		E, R := int64(0), int64(0)
+		val := func(v ssa.Value) (int64, bool) {
+			v = resolveCell(stripConv(v))
+			if cv, ok := constOf(v); ok && cv.Kind() == constant.Int {
+				i, ok := constant.Int64Val(cv)
+				return i, ok
+			}
+			if c, ok := v.(*ssa.Call); ok {
+				if bi, ok := c.Call.Value.(*ssa.Builtin); ok && bi.Name() == "len" {
+					switch {
+					case isEquals(c.Call.Args[0].Type()):
+						return E, true
+					case isRelated(c.Call.Args[0].Type()):
+						// only the count taken before the list is re-sliced: the first len() in block order that reaches a comparison
+						if sl, isSlice := resolveCell(stripConv(c.Call.Args[0])).(*ssa.Slice); !isSlice || sl == nil {
+							return R, true
+						}
+					}
+				}
+			}
+			return 0, false
+		}
+		nRes := 0
+		scen := func(b *ssa.BasicBlock, succ int) bool {
+			i := blockIf(b)
+			if i == nil {
+				return false
+			}
+			base, neg := condBase(i.Cond)
+			bo, ok := base.(*ssa.BinOp)
+			if !ok {
+				return false
+			}
+			x, ok1 := val(bo.X)
+			y, ok2 := val(bo.Y)
+			if !ok1 || !ok2 {
+				return false
+			}
+			var t bool
+			switch bo.Op {
+			case token.EQL:
+				t = x == y
+			case token.NEQ:
+				t = x != y
+			case token.LSS:
+				t = x < y
+			case token.LEQ:
+				t = x <= y
+			case token.GTR:
+				t = x > y
+			case token.GEQ:
+				t = x >= y
+			default:
+				return false
+			}
+			nRes++
+			if t != neg {
+				return succ == 1
+			}
+			return succ == 0
+		}
+		isJoinCtor := func(in ssa.Instruction) bool {
+			c, ok := in.(*ssa.Call)
+			if !ok {
+				return false
+			}
+			f := c.Call.StaticCallee()
+			return f != nil && (f.Name() == "NewHashJoinPlanNodeWithChilds" || f.Name() == "NewIndexJoinPlanNode")
+		}
+		selCtor := w.FuncObj("execution/plans", "NewSelectionPlanNode")
+		// "the bare plan stays": a Selection-wrapped copy is appended (not stored over the candidate)
+		isKeepBare := func(in ssa.Instruction) bool {
+			c, ok := in.(*ssa.Call)
+			if !ok {
+				return false
+			}
+			bi, ok := c.Call.Value.(*ssa.Builtin)
+			if !ok || bi.Name() != "append" || len(c.Call.Args) < 2 {
+				return false
+			}
+			return DependsOn(c.Call.Args[1], IsCallTo(selCtor))
+		}
+		nKeep, nCtor := 0, 0
+		for _, b := range fn.Blocks {
+			for _, in := range b.Instrs {
+				if isKeepBare(in) {
+					nKeep++
+				}
+				if isJoinCtor(in) {
+					nCtor++
+				}
+			}
+		}
+		r.Floor("sites that append a Selection-wrapped copy of a candidate", nKeep, 1)
+		r.Floor("join plan constructors in findBestJoinInner", nCtor, 2)
+		// whole-slice keys: no sub-slice of equals anywhere in the function
+		subSliced := ""
+		for _, b := range fn.Blocks {
+			for _, in := range b.Instrs {
+				if sl, ok := in.(*ssa.Slice); ok && isEquals(sl.X.Type()) && (sl.High != nil || sl.Low != nil) {
+					subSliced = w.InstrPos(in)
+				}
+			}
+		}
+		for _, sc := range []struct {
+			e, r int64
+			tag  string
+		}{{1, 2, "one key and one more condition"}, {0, 1, "one non-equality condition"}, {2, 2, "two equalities"}, {2, 3, "two equalities and one more condition"}} {
+			E, R = sc.e, sc.r
+			nRes = 0
+			keep := (&PathQ{Fn: fn, Cut: []EdgeCut{scen}, Avoid: func(in ssa.Instruction) bool { return false }, Target: isKeepBare}).FromEntry()
+			ctor := (&PathQ{Fn: fn, Cut: []EdgeCut{scen}, Target: isJoinCtor}).FromEntry()
+			key := fmt.Sprintf("findBestJoinInner:bare-join-not-a-candidate[E=%d,R=%d]", sc.e, sc.r)
+			switch {
+			case keep == nil:
+				r.Check(true, key, "with "+sc.tag+" every candidate is wrapped in the Selection", "")
+			case ctor == nil || sc.e == 0:
+				// only the nested-loop join exists here (it applies no predicate at all): with the plan type assumed NestedLoopJoin it is never kept bare
+				nljV, _ := constant.Int64Val(w.Const("execution/plans", "NestedLoopJoin").Val())
+				getType := func(v ssa.Value) bool {
+					c, ok := v.(*ssa.Call)
+					return ok && c.Call.IsInvoke() && c.Call.Method.Name() == "GetType"
+				}
+				wit := (&PathQ{Fn: fn, Cut: []EdgeCut{scen, specCut(getType, nljV)}, Target: isKeepBare}).FromEntry()
+				r.Check(wit == nil && ctor == nil, key, "with "+sc.tag+" the only candidate is the nested-loop join and it is always wrapped in the Selection", "a bare nested-loop join (a cross product) stays a candidate beside its filtered copy; both have the same cost: "+w.DescribeWitness(fn, wit))
+			case sc.r > sc.e:
+				r.Check(false, key, "with "+sc.tag+" every candidate is wrapped in the Selection", "with "+sc.tag+" a key join is built and also kept without the Selection above it: the remaining condition is applied nowhere: "+w.DescribeWitness(fn, keep))
+			default:
+				r.Check(subSliced == "", key, "with "+sc.tag+" a bare key join applies all the equalities", "a key join is built and kept without the Selection, but its keys come from a part of the equalities only (equals is re-sliced at "+subSliced+")")
+			}
+		}
+	})
+	prop("C11", "C11-R9")
+}
+
+// structKey names a value by the access path that produced it (field of field of parameter ...), so that two reads of
+// `item.rid2` compare equal although they are different SSA registers.
+func structKey(v ssa.Value, depth int) string {
+	v = stripConv(resolveCell(stripConv(v)))
+	if depth > 12 {
+		return v.Name()
+	}
+	switch x := v.(type) {
+	case *ssa.FieldAddr:
+		if st, ok := derefStruct(x.X.Type()); ok {
+			return structKey(x.X, depth+1) + "." + st.Field(x.Field).Name()
+		}
+	case *ssa.Field:
+		if st, ok := x.X.Type().Underlying().(*types.Struct); ok {
+			return structKey(x.X, depth+1) + "." + st.Field(x.Field).Name()
+		}
+	case *ssa.UnOp:
+		if x.Op == token.MUL {
+			return "*" + structKey(x.X, depth+1)
+		}
+	case *ssa.IndexAddr:
+		return structKey(x.X, depth+1) + "[" + structKey(x.Index, depth+1) + "]"
+	}
+	return v.Name()
+}
+
+func init() {
+	reg("C03-R8", "a row operation runs on the page its RID names: wherever a TablePage row method (GetTuple, UpdateTuple, MarkDelete, ApplyDelete, RollbackDelete) is called on a page that the same function fetched from the pool, the page id given to FetchPage is GetPageID() of the very RID handed to the method (same access path) — the rollback of a relocated UPDATE that fetches the old page and deletes the new RID's slot number there removes an unrelated committed row", func(w *World, r *Report) {
+		a := w.A()
+		ops := map[*types.Func]bool{a.TPGetTuple: true, a.TPUpdate: true, a.TPMarkDelete: true, a.TPApplyDelete: true, a.TPRollbackDelete: true}
+		getPID := w.MethodObj("storage/page", "RID", "GetPageID")
+		nSites, nFetched := 0, 0
+		for _, fn := range w.RepoFuncs {
+			if w.IsTestFunc(fn) {
+				continue
+			}
+			fails := map[string][]string{}
+			EachCall(fn, func(c ssa.CallInstruction) {
+				o := CalleeObj(c)
+				if o == nil || !ops[o] || c.Common().IsInvoke() {
+					return
+				}
+				nSites++
+				sig := o.Type().(*types.Signature)
+				ridIdx := -1
+				for i := 0; i < sig.Params().Len(); i++ {
+					if p, ok := sig.Params().At(i).Type().(*types.Pointer); ok && strings.HasSuffix(p.Elem().String(), "page.RID") {
+						ridIdx = i + 1
+						break
+					}
+				}
+				if ridIdx < 0 {
+					return
+				}
+				args := c.Common().Args
+				ridKey := structKey(args[ridIdx], 0)
+				var fetches []*ssa.Call
+				for v := range BackSlice(args[0]).Vals {
+					if f, ok := v.(*ssa.Call); ok && CalleeObj(f) == a.BPMFetch {
+						fetches = append(fetches, f)
+					}
+				}
+				if len(fetches) == 0 {
+					return // the page was handed in by the caller
+				}
+				if DependsOn(args[ridIdx], func(x ssa.Value) bool { f, ok := x.(*ssa.Call); return ok && CalleeObj(f) == a.BPMFetch }) {
+					return // the RID was produced by the fetched page itself (scan cursor): it names that page by construction
+				}
+				nFetched++
+				key := funcKey(fn) + ":page-of-the-rid:" + o.Name()
+				if _, ok := fails[key]; !ok {
+					fails[key] = nil
+				}
+				for _, f := range fetches {
+					matched, any := false, false
+					for v := range BackSlice(f.Call.Args[1]).Vals {
+						g, ok := v.(*ssa.Call)
+						if !ok || CalleeObj(g) != getPID {
+							continue
+						}
+						any = true
+						rk := structKey(g.Call.Args[0], 0)
+						if rk == ridKey || rk == "*"+ridKey || "*"+rk == ridKey {
+							matched = true
+						}
+					}
+					if any && !matched {
+						fails[key] = append(fails[key], o.Name()+" at "+w.InstrPos(c.(ssa.Instruction))+" works on RID "+ridKey+" but on the page fetched at "+w.InstrPos(f)+" with the page id of another RID")
+					}
+				}
+			})
+			for _, key := range sortedKeysOf(fails) {
+				r.Check(len(fails[key]) == 0, key, "the page fetched is the page of the RID operated on", strings.Join(uniq(fails[key]), "; "))
+			}
+		}
+		r.Floor("row-method call sites examined", nSites, 15)
+		r.Floor("of these, on a page fetched in the same function", nFetched, 8)
+	})
+	prop("C03", "C03-R8")
+	prop("C12", "C03-R8")
+	prop("C02", "C03-R8")
+	prop("C01", "C03-R8")
 }
